@@ -35,9 +35,9 @@ pub fn parse_datetime(input: &str) -> Result<Zoned, jiff::Error> {
         "%Y-%m-%d %H:%M",
         "%Y/%m/%d %H:%M",
         // 12 hour formats:
-        "%Y-%m-%d %I:%M:%S %p%.f",
+        "%Y-%m-%d %I:%M:%S%.f %p",
         "%Y-%m-%d %I:%M %p",
-        "%Y/%m/%d %I:%M:%S %p%.f",
+        "%Y/%m/%d %I:%M:%S%.f %p",
         "%Y/%m/%d %I:%M %p",
     ];
 
